@@ -235,3 +235,60 @@ def r8_5(ctx):
             b = f.body(fn)
             pc += sum(1 for bb in b.normal if bb in b.reachable and b.term(bb)["k"] == "assert")
     ctx.ob("matcher-sees-arithmetic-checks", pc >= 1, "", "positive control: %d panic checks visible in the argument parser / text applier; %d in the go handler" % (pc, n), reason="below-floor", nontrivial=False)
+
+
+def r12_7(ctx):
+    """The root searches every iteration with the full window: each bound handed to the root's
+    alpha_beta_search calls is either a constant beyond the mate range or a variable whose value on entry to
+    the move loop (its definitions outside that loop) is such a constant - inside the loop it is only raised
+    by accepted scores (R7.1/R12.3).  A root window that starts narrower (an "aspiration" window around the
+    last score) without a re-search on fail-low lets a refuted first-iteration favourite survive for ever."""
+    from wa.expr import Exprs, subexprs, strip_refs, show_expr
+    f = ctx.facts
+    if not f.has_body(GBM) or not f.has_body(ABS):
+        raise AnchorMissing(GBM)
+    b = f.body(GBM)
+    ctx.note_fn(GBM)
+    ex = Exprs(b)
+    ab = f.body(ABS)
+    i32s = [i for i in range(1, ab.arg_count + 1) if ab.local_ty(i) == "i32"]
+    # (ply, alpha, beta): the window is the 2nd and 3rd i32 parameter
+    if len(i32s) < 3:
+        raise ShapeNotRecognised("alpha_beta_search: (ply, alpha, beta) i32 parameters")
+    wpos = i32s[1:3]
+    try:
+        mate = f.const_value("engine::MATE_SCORE")
+        mate = mate if isinstance(mate, int) else 100000
+    except Exception:
+        mate = 100000
+    loops = b.loops()
+    n = 0
+    for bb, t in sorted(b.iter_calls(callee=ABS)):
+        inl = [h for h, body_ in loops.items() if bb in body_]
+        if not inl:
+            continue
+        inner = loops[min(inl, key=lambda h: len(loops[h]))]
+        args = ex.call_args(bb)
+        for k, p in enumerate(wpos):
+            e = args[p - 1]
+            n += 1
+            bad = None
+            consts_ok = True
+            for x in subexprs(e):
+                if x[0] == "const" and isinstance(x[1], int) and not isinstance(x[1], bool) and abs(x[1]) > 1 and abs(x[1]) < mate:
+                    consts_ok = False
+                    bad = "a constant inside the mate range (%d)" % x[1]
+                if x[0] != "var":
+                    continue
+                for dloc, kind in x[2]:
+                    if kind == "entry" or not isinstance(dloc, tuple) or dloc[0] in inner:
+                        continue
+                    st = b.stmts(dloc[0])
+                    de = ex.rvalue(st[dloc[1]]["rv"], dloc) if dloc[1] < len(st) else ex.call_expr(b.term(dloc[0]), dloc)
+                    de = strip_refs(de)
+                    if not (de[0] == "const" and isinstance(de[1], int) and abs(de[1]) >= mate):
+                        bad = "`%s` starts the move loop as `%s` (%s)" % (b.lname(x[1]), show_expr(de, b)[:50], b.where(dloc))
+            ctx.ob("get_best_move:root-call#%d:%s:full-window" % (n // 2 + n % 2, "alpha" if k == 0 else "beta"), bad is None and consts_ok, b.where(b.term_loc(bb)),
+                   "root window bound `%s`: %s" % (show_expr(e, b)[:50], "a constant beyond the mate range / a variable reset to one before every pass over the root moves" if bad is None else
+                                                  bad + ": the root window is narrower than (-inf, +inf) at the start of an iteration and nothing re-searches when every move fails low"))
+    ctx.floor("root window bounds examined", n, 2)
